@@ -224,6 +224,8 @@ Lemma push_pushes m s : push m s = pushes [m] s.
 Proof. reflexivity. Qed.
 Lemma iter_close_good n s : (0 < n)%nat -> good (Nat.iter n close1 s) = false.
 Proof. destruct n; [lia|]. reflexivity. Qed.
+Lemma iter_close_succ n s : Nat.iter (S n) close1 s = Nat.iter n close1 (close1 s).
+Proof. induction n; [reflexivity|]. cbn [Nat.iter nat_rect] in *. now rewrite IHn. Qed.
 Lemma rcvd_iter_close n s : c_rcvd (Nat.iter n close1 s) = c_rcvd s.
 Proof. induction n; cbn; [reflexivity|assumption]. Qed.
 Lemma fault_iter_close n s : c_fault (Nat.iter n close1 s) = c_fault s.
@@ -293,7 +295,7 @@ Lemma tame_outcome w x f : tame w -> send_outcome (chans w x) = Some f -> f <> O
 Proof.
   unfold send_outcome. intros Ht. destruct (c_closed (chans w x)).
   - intros H; injection H as <-. discriminate.
-  - intros H <-. now apply (Ht x).
+  - intros H ->. now apply (Ht x).
 Qed.
 
 Lemma bcast_loop_spec m : forall ks w broken,
@@ -322,12 +324,12 @@ Proof.
       * intros x. rewrite Hc1. destruct (N.eqb_spec x c) as [->|_]; [apply (Ht c)|apply Ht].
       * intros b Hb. rewrite Hs1. apply Hks. now right.
       * exists w'. rewrite Hrun, Hs1. repeat split; [|congruence|].
-        -- rewrite <- app_assoc. cbn [app]. do 3 f_equal. apply filter_ext. intros b.
+        -- rewrite <- app_assoc. cbn [app]. do 4 f_equal. apply filter_ext. intros b.
            unfold bad_key. destruct (dget b (subscribers w)) as [y|]; [|reflexivity].
            rewrite Hc1. destruct (N.eqb_spec y c) as [->|_]; [now rewrite good_close1, Hg|reflexivity].
         -- intros x. rewrite Hch, Hs1, Hc1. destruct (N.eqb_spec x c) as [->|Hne].
            ++ rewrite N.eqb_refl. cbn [length]. unfold bcast_chan. rewrite good_close1, Hg.
-              now rewrite Nat.iter_succ_r.
+              symmetry. apply iter_close_succ.
            ++ destruct (N.eqb_spec c x); [congruence|reflexivity].
     + (* delivered *)
       assert (Hg : good (chans w c) = true) by (unfold good; now rewrite Eo).
@@ -491,4 +493,459 @@ Proof.
   rewrite steps_cons. destruct (step_inv w o Hwf Ht Ho) as [Hwf' [Ht' _]]. now apply IH.
 Qed.
 
+
+(* ------------------------------------------------------------------ 4. consequences of the closed form *)
+
+Lemma dget_filter_keep (P : sub_id * chan -> bool) a c d :
+  NoDup (dkeys d) -> In (a, c) d -> P (a, c) = true -> dget a (filter P d) = Some c.
+Proof.
+  intros Hnd Hin HP. apply dget_in; [now apply NoDup_keys_filter|]. apply filter_In. now split.
+Qed.
+
+Lemma dget_filter_negkey a b d : a <> b -> dget a (filter (negkey b) d) = dget a d.
+Proof.
+  intros Hne. induction d as [|[a' c'] t IH]; cbn [filter dget]; [reflexivity|].
+  rewrite negkey_pair. destruct (N.eqb_spec a' b) as [->|Hb]; cbn [negb dget].
+  - destruct (N.eqb_spec a b); [congruence|assumption].
+  - now rewrite IH.
+Qed.
+
+Lemma filter_all {A} (f : A -> bool) l : (forall x, In x l -> f x = true) -> filter f l = l.
+Proof.
+  induction l as [|x t IH]; cbn [filter]; [reflexivity|]. intros H.
+  rewrite (H x (or_introl eq_refl)). f_equal. apply IH. intros y Hy. apply H. now right.
+Qed.
+
+Lemma filter_idem {A} (f : A -> bool) l : filter f (filter f l) = filter f l.
+Proof. apply filter_all. intros x Hx. now apply filter_In in Hx. Qed.
+
+Lemma good_iter_close_bad n s : good s = false -> good (Nat.iter n close1 s) = false.
+Proof. intros H. destruct n; [assumption|reflexivity]. Qed.
+
+(* (A) a channel whose peer is gone, or that was closed, never receives anything again *)
+Lemma spec_frozen w o x : good (chans w x) = false ->
+  good (spec_chan o w x) = false /\ c_rcvd (spec_chan o w x) = c_rcvd (chans w x).
+Proof.
+  intros Hb. destruct o as [[a c|a|e]|c k]; cbn [spec_chan].
+  - destruct (N.eqb_spec x c) as [->|_]; [|now split]. rewrite Hb. now split.
+  - destruct (dget a (subscribers w)) as [c|]; [|now split].
+    destruct (N.eqb_spec x c) as [->|_]; [|now split]. rewrite Hb. now split.
+  - unfold bcast_chan. rewrite Hb. split; [now apply good_iter_close_bad|apply rcvd_iter_close].
+  - destruct (N.eqb_spec x c) as [->|_]; [|now split]. split; [apply good_break|reflexivity].
+Qed.
+
+Lemma steps_frozen x h : forall w, wf w -> tame w -> no_other h = true -> good (chans w x) = false ->
+  c_rcvd (chans (steps cfg w h) x) = c_rcvd (chans w x) /\ good (chans (steps cfg w h) x) = false.
+Proof.
+  induction h as [|o t IH]; intros w Hwf Ht Hno Hb; [now split|].
+  cbn [no_other forallb] in Hno. apply andb_true_iff in Hno as [Ho Hno]. rewrite steps_cons.
+  destruct (step_inv w o Hwf Ht Ho) as [Hwf' [Ht' _]].
+  destruct (step_spec w o Hwf Ht Ho) as [w' [Hrun [Hs Hc]]]. rewrite Hrun in *. cbn [fst] in *.
+  destruct (spec_frozen w o x Hb) as [Hb' Hr]. rewrite <- Hc in Hb', Hr.
+  destruct (IH w' Hwf' Ht' Hno Hb') as [IH1 IH2]. split; [congruence|assumption].
+Qed.
+
+(* (B) a channel no table entry points to, and that the history does not mention, is not touched *)
+Definition unbound (c : chan) (w : world) : Prop := forall b y, In (b, y) (subscribers w) -> y <> c.
+
+Lemma spec_unbound w o c : wf w -> unbound c w -> untouched_op c o = true ->
+  spec_chan o w c = chans w c /\ (forall b y, In (b, y) (spec_subs o w) -> y <> c).
+Proof.
+  intros Hwf Hu Ho. destruct o as [[a c'|a|e]|c' k]; cbn [spec_chan spec_subs untouched_op] in *.
+  - apply negb_true_iff, N.eqb_neq in Ho. destruct (N.eqb_spec c c'); [congruence|]. split; [reflexivity|].
+    intros b y Hin. destruct (good (chans w c')).
+    + apply in_dset in Hin as [[_ ->]|[_ Hin]]; [congruence|now apply (Hu b)|exact Hwf].
+    + apply filter_In in Hin as [Hin _]. now apply (Hu b).
+  - split.
+    + destruct (dget a (subscribers w)) as [c'|] eqn:Eg; [|reflexivity].
+      apply dget_some_in, Hu in Eg. destruct (N.eqb_spec c c'); [congruence|reflexivity].
+    + intros b y Hin. apply filter_In in Hin as [Hin _]. now apply (Hu b).
+  - split.
+    + rewrite count_zero; [apply bcast_chan_0|exact Hu].
+    + intros b y Hin. apply filter_In in Hin as [Hin _]. now apply (Hu b).
+  - apply negb_true_iff, N.eqb_neq in Ho. destruct (N.eqb_spec c c'); [congruence|]. now split.
+Qed.
+
+Lemma steps_unbound c h : forall w, wf w -> tame w -> no_other h = true -> untouched c h = true ->
+  unbound c w -> chans (steps cfg w h) c = chans w c /\ unbound c (steps cfg w h).
+Proof.
+  induction h as [|o t IH]; intros w Hwf Ht Hno Hun Hu; [now split|].
+  cbn [no_other untouched forallb] in Hno, Hun.
+  apply andb_true_iff in Hno as [Ho Hno]. apply andb_true_iff in Hun as [Huo Hun]. rewrite steps_cons.
+  destruct (step_inv w o Hwf Ht Ho) as [Hwf' [Ht' _]].
+  destruct (step_spec w o Hwf Ht Ho) as [w' [Hrun [Hs Hc]]]. rewrite Hrun in *. cbn [fst] in *.
+  destruct (spec_unbound w o c Hwf Hu Huo) as [Hsame Hu'].
+  assert (Hu2 : unbound c w') by (unfold unbound; now rewrite Hs).
+  destruct (IH w' Hwf' Ht' Hno Hun Hu2) as [IH1 IH2]. split; [|assumption].
+  now rewrite IH1, Hc.
+Qed.
+
+(* (C) the session invariant: a is subscribed with c, nobody else is, and c is healthy *)
+Definition session (a : sub_id) (c : chan) (w : world) : Prop :=
+  dget a (subscribers w) = Some c
+  /\ (forall b y, In (b, y) (subscribers w) -> y = c -> b = a)
+  /\ good (chans w c) = true.
+
+Lemma spec_session a c w o : wf w -> session a c w -> quiet_op a c o = true ->
+  dget a (spec_subs o w) = Some c
+  /\ (forall b y, In (b, y) (spec_subs o w) -> y = c -> b = a)
+  /\ good (spec_chan o w c) = true
+  /\ c_rcvd (spec_chan o w c) = c_rcvd (chans w c) ++ owed_op a c o.
+Proof.
+  intros Hwf [Hg [Hu Hgood]] Hq.
+  assert (Hin : In (a, c) (subscribers w)) by now apply dget_some_in.
+  destruct o as [[a' c'|a'|e]|c' k]; cbn [spec_chan spec_subs quiet_op owed_op] in *.
+  - apply orb_true_iff in Hq as [Hq|Hq]; apply andb_true_iff in Hq as [Hq1 Hq2].
+    + apply N.eqb_eq in Hq1, Hq2. subst a' c'. rewrite !N.eqb_refl, Hgood. cbn [andb].
+      repeat split; [apply dget_dset_same| |assumption].
+      intros b y Hb ->. apply in_dset in Hb as [[-> _]|[_ Hb]]; [reflexivity| |exact Hwf]. now apply (Hu b c).
+    + apply negb_true_iff in Hq1, Hq2. rewrite Hq1. cbn [andb]. rewrite app_nil_r.
+      apply N.eqb_neq in Hq1, Hq2. destruct (N.eqb_spec c c') as [->|_]; [congruence|].
+      split; [|split; [|now split]].
+      * destruct (good (chans w c')); [rewrite dget_dset_other; auto|].
+        apply dget_filter_keep; auto. rewrite negkey_pair. apply negb_true_iff, N.eqb_neq. congruence.
+      * intros b y Hb ->. destruct (good (chans w c')).
+        -- apply in_dset in Hb as [[_ Hb]|[_ Hb]]; [congruence|now apply (Hu b c)|exact Hwf].
+        -- apply filter_In in Hb as [Hb _]. now apply (Hu b c).
+  - apply negb_true_iff, N.eqb_neq in Hq. rewrite app_nil_r.
+    split; [|split; [|split]].
+    + apply dget_filter_keep; auto. rewrite negkey_pair. apply negb_true_iff, N.eqb_neq. congruence.
+    + intros b y Hb ->. apply filter_In in Hb as [Hb _]. now apply (Hu b c).
+    + destruct (dget a' (subscribers w)) as [c'|] eqn:Eg; [|assumption].
+      destruct (N.eqb_spec c c') as [<-|_]; [|assumption].
+      exfalso. apply Hq. apply dget_some_in in Eg. now apply (Hu a' c).
+    + destruct (dget a' (subscribers w)) as [c'|] eqn:Eg; [|reflexivity].
+      destruct (N.eqb_spec c c') as [<-|_]; [|reflexivity].
+      exfalso. apply Hq. apply dget_some_in in Eg. now apply (Hu a' c).
+  - rewrite (count_one a c _ Hwf Hin Hu). unfold bcast_chan. rewrite Hgood. cbn [repeat].
+    split; [|split; [|now split]].
+    + apply dget_filter_keep; auto.
+    + intros b y Hb ->. apply filter_In in Hb as [Hb _]. now apply (Hu b c).
+  - apply negb_true_iff, N.eqb_neq in Hq. destruct (N.eqb_spec c c'); [congruence|].
+    rewrite app_nil_r. now repeat split.
+Qed.
+
+Lemma steps_session a c h : forall w, wf w -> tame w -> no_other h = true -> quiet a c h = true ->
+  session a c w ->
+  session a c (steps cfg w h) /\ c_rcvd (chans (steps cfg w h) c) = c_rcvd (chans w c) ++ owed a c h.
+Proof.
+  induction h as [|o t IH]; intros w Hwf Ht Hno Hq Hs; [cbn; now rewrite app_nil_r|].
+  cbn [no_other quiet forallb] in Hno, Hq.
+  apply andb_true_iff in Hno as [Ho Hno]. apply andb_true_iff in Hq as [Hqo Hq]. rewrite steps_cons.
+  destruct (step_inv w o Hwf Ht Ho) as [Hwf' [Ht' _]].
+  destruct (step_spec w o Hwf Ht Ho) as [w' [Hrun [Hsub Hc]]]. rewrite Hrun in *. cbn [fst] in *.
+  destruct (spec_session a c w o Hwf Hs Hqo) as [H1 [H2 [H3 H4]]].
+  assert (Hs' : session a c w') by (unfold session; rewrite Hsub, Hc; auto).
+  destruct (IH w' Hwf' Ht' Hno Hq Hs') as [IH1 IH2]. split; [assumption|].
+  rewrite IH2, Hc, H4. unfold owed. cbn [flat_map]. now rewrite app_assoc.
+Qed.
+
+(* subscribing with a channel nobody points to starts a session *)
+Lemma subscribe_starts_session a c w : wf w -> tame w -> unbound c w -> good (chans w c) = true ->
+  let w' := fst (step cfg w (Subscribe a c)) in
+  session a c w' /\ c_rcvd (chans w' c) = c_rcvd (chans w c) ++ [MSubscribed].
+Proof.
+  intros Hwf Ht Hu Hg. cbn zeta.
+  destruct (step_spec w (Subscribe a c) Hwf Ht eq_refl) as [w' [Hrun [Hs Hc]]]. rewrite Hrun. cbn [fst].
+  unfold Subscribe in *. cbn [spec_subs spec_chan] in *. rewrite Hg in *.
+  unfold session. rewrite Hs, Hc, N.eqb_refl. repeat split.
+  - apply dget_dset_same.
+  - intros b y Hb ->. apply in_dset in Hb as [[-> _]|[_ Hb]]; [reflexivity| |exact Hwf].
+    exfalso. now apply (Hu b c).
+  - now rewrite good_push.
+Qed.
+
+Lemma init_wf : wf init. Proof. constructor. Qed.
+Lemma init_tame : tame init. Proof. intros x. discriminate. Qed.
+Lemma init_unbound c : unbound c init. Proof. intros b y []. Qed.
+
+Lemma no_other_app h1 h2 : no_other (h1 ++ h2) = no_other h1 && no_other h2.
+Proof. apply forallb_app. Qed.
+
+(* state reached after h1 ++ [Subscribe a c] ++ h2 *)
+Lemma session_established a c h1 h2 :
+  no_other (h1 ++ Subscribe a c :: h2) = true -> untouched c h1 = true -> quiet a c h2 = true ->
+  let w := steps cfg init (h1 ++ Subscribe a c :: h2) in
+  wf w /\ tame w /\ session a c w /\ c_rcvd (chans w c) = MSubscribed :: owed a c h2.
+Proof.
+  intros Hno Hun Hq. cbn zeta.
+  rewrite no_other_app in Hno. apply andb_true_iff in Hno as [Hno1 Hno2].
+  cbn [no_other forallb] in Hno2. apply andb_true_iff in Hno2 as [_ Hno2]. fold (no_other h2) in Hno2.
+  rewrite steps_app, steps_cons.
+  destruct (steps_inv h1 init init_wf init_tame Hno1) as [Hwf1 Ht1].
+  destruct (steps_unbound c h1 init init_wf init_tame Hno1 Hun (init_unbound c)) as [Hc1 Hu1].
+  set (w1 := steps cfg init h1) in *.
+  assert (Hg1 : good (chans w1 c) = true) by (rewrite Hc1; reflexivity).
+  destruct (subscribe_starts_session a c w1 Hwf1 Ht1 Hu1 Hg1) as [Hs2 Hr2].
+  destruct (step_inv w1 (Subscribe a c) Hwf1 Ht1 eq_refl) as [Hwf2 [Ht2 _]].
+  set (w2 := fst (step cfg w1 (Subscribe a c))) in *.
+  destruct (steps_session a c h2 w2 Hwf2 Ht2 Hno2 Hq Hs2) as [Hs3 Hr3].
+  destruct (steps_inv h2 w2 Hwf2 Ht2 Hno2) as [Hwf3 Ht3].
+  repeat split; try assumption; try apply Hs3.
+  rewrite Hr3, Hr2, Hc1. reflexivity.
+Qed.
+
+(* exactly once, in order, while subscribed *)
+Lemma exactly_once_in_order a c h1 h2 :
+  no_other (h1 ++ Subscribe a c :: h2) = true -> untouched c h1 = true -> quiet a c h2 = true ->
+  let w := steps cfg init (h1 ++ Subscribe a c :: h2) in
+  rcvd w c = MSubscribed :: owed a c h2 /\ dget a (subscribers w) = Some c.
+Proof.
+  intros Hno Hun Hq. destruct (session_established a c h1 h2 Hno Hun Hq) as [_ [_ [Hs Hr]]].
+  split; [exact Hr|apply Hs].
+Qed.
+
+(* ... the unsubscription acknowledgement is the last thing it ever receives, whatever follows *)
+Lemma unsubscribed_then_nothing a c h1 h2 h3 :
+  no_other (h1 ++ Subscribe a c :: h2 ++ Unsubscribe a :: h3) = true ->
+  untouched c h1 = true -> quiet a c h2 = true ->
+  rcvd (steps cfg init (h1 ++ Subscribe a c :: h2 ++ Unsubscribe a :: h3)) c
+  = MSubscribed :: owed a c h2 ++ [MUnsubscribed].
+Proof.
+  intros Hno Hun Hq.
+  replace (h1 ++ Subscribe a c :: h2 ++ Unsubscribe a :: h3)
+    with ((h1 ++ Subscribe a c :: h2) ++ Unsubscribe a :: h3) in * by (rewrite <- app_assoc; reflexivity).
+  rewrite no_other_app in Hno. apply andb_true_iff in Hno as [Hno1 Hno2].
+  cbn [no_other forallb] in Hno2. apply andb_true_iff in Hno2 as [_ Hno3]. fold (no_other h3) in Hno3.
+  destruct (session_established a c h1 h2 Hno1 Hun Hq) as [Hwf [Ht [[Hg [Hu Hgood]] Hr]]].
+  rewrite steps_app, steps_cons. set (w := steps cfg init (h1 ++ Subscribe a c :: h2)) in *.
+  destruct (step_inv w (Unsubscribe a) Hwf Ht eq_refl) as [Hwf' [Ht' _]].
+  destruct (step_spec w (Unsubscribe a) Hwf Ht eq_refl) as [w' [Hrun [Hs Hc]]]. rewrite Hrun in *. cbn [fst] in *.
+  unfold Unsubscribe in *. cbn [spec_subs spec_chan] in *.
+  assert (Hc' : chans w' c = close1 (push MUnsubscribed (chans w c))).
+  { rewrite Hc, Hg, N.eqb_refl, Hgood. reflexivity. }
+  assert (Hb : good (chans w' c) = false) by (rewrite Hc'; reflexivity).
+  destruct (steps_frozen c h3 w' Hwf' Ht' Hno3 Hb) as [Hfr _].
+  unfold rcvd. rewrite Hfr, Hc'. cbn [c_rcvd close1 push]. rewrite Hr. reflexivity.
+Qed.
+
+(* a channel that breaks keeps what it had received and gets nothing more, whatever follows *)
+Lemma broken_then_nothing a c k h1 h2 h3 :
+  no_other (h1 ++ Subscribe a c :: h2 ++ Break c k :: h3) = true ->
+  untouched c h1 = true -> quiet a c h2 = true ->
+  rcvd (steps cfg init (h1 ++ Subscribe a c :: h2 ++ Break c k :: h3)) c = MSubscribed :: owed a c h2.
+Proof.
+  intros Hno Hun Hq.
+  replace (h1 ++ Subscribe a c :: h2 ++ Break c k :: h3)
+    with ((h1 ++ Subscribe a c :: h2) ++ Break c k :: h3) in * by (rewrite <- app_assoc; reflexivity).
+  rewrite no_other_app in Hno. apply andb_true_iff in Hno as [Hno1 Hno2].
+  cbn [no_other forallb] in Hno2. apply andb_true_iff in Hno2 as [Hk Hno3]. fold (no_other h3) in Hno3.
+  destruct (session_established a c h1 h2 Hno1 Hun Hq) as [Hwf [Ht [_ Hr]]].
+  rewrite steps_app, steps_cons. set (w := steps cfg init (h1 ++ Subscribe a c :: h2)) in *.
+  destruct (step_inv w (Break c k) Hwf Ht Hk) as [Hwf' [Ht' _]].
+  cbn [step fst] in *. set (w' := set_chans w (upd (chans w) c (break_with k (chans w c)))) in *.
+  assert (Hc' : chans w' c = break_with k (chans w c)) by apply upd_same.
+  assert (Hb : good (chans w' c) = false) by (rewrite Hc'; apply good_break).
+  destruct (steps_frozen c h3 w' Hwf' Ht' Hno3 Hb) as [Hfr _].
+  unfold rcvd. rewrite Hfr, Hc'. exact Hr.
+Qed.
+
+(* (E) after every publish no subscriber with a dead channel is left in the table *)
+Lemma broken_dropped h e : no_other h = true ->
+  let w := steps cfg init (h ++ [Publish e]) in
+  forall b x, In (b, x) (subscribers w) -> good (chans w x) = true.
+Proof.
+  intros Hno. cbn zeta. rewrite steps_app.
+  destruct (steps_inv h init init_wf init_tame Hno) as [Hwf Ht].
+  set (w := steps cfg init h) in *. unfold steps; cbn [fold_left].
+  destruct (step_spec w (Publish e) Hwf Ht eq_refl) as [w' [Hrun [Hs Hc]]]. rewrite Hrun. cbn [fst].
+  unfold Publish in *. cbn [spec_subs spec_chan] in *.
+  intros b x Hin. rewrite Hs in Hin. apply filter_In in Hin as [_ Hg]. cbn [snd] in Hg.
+  rewrite Hc. unfold bcast_chan. rewrite Hg. now rewrite good_pushes.
+Qed.
+
+(* (G) the dispatcher never stops *)
+Lemma outcomes_ret h : forall w, wf w -> tame w -> no_other h = true ->
+  Forall (fun r => r = Ret tt) (outcomes cfg w h).
+Proof.
+  induction h as [|o t IH]; intros w Hwf Ht Hno; cbn [outcomes]; [constructor|].
+  cbn [no_other forallb] in Hno. apply andb_true_iff in Hno as [Ho Hno].
+  destruct (step_inv w o Hwf Ht Ho) as [Hwf' [Ht' Hr]]. constructor; [assumption|now apply IH].
+Qed.
+
+Lemma run_loop_total h : forall w n, wf w -> tame w -> no_other h = true ->
+  run_loop cfg w h n = (steps cfg w h, Ret tt, n + N.of_nat (length h)).
+Proof.
+  induction h as [|o t IH]; intros w n Hwf Ht Hno; cbn [run_loop length].
+  - now rewrite N.add_0_r.
+  - cbn [no_other forallb] in Hno. apply andb_true_iff in Hno as [Ho Hno].
+    destruct (step_inv w o Hwf Ht Ho) as [Hwf' [Ht' Hr]].
+    rewrite steps_cons. destruct (step cfg w o) as [w1 r]. cbn [fst snd] in *. subst r.
+    rewrite IH by assumption. f_equal. lia.
+Qed.
+
+Lemma run_total h : no_other h = true ->
+  exists w, run cfg init h = (w, Ret tt, N.of_nat (length h))
+    /\ forall x, chans w x = bcast_chan MShutdown (count x (subscribers (steps cfg init h))) (chans (steps cfg init h) x).
+Proof.
+  intros Hno. unfold run. rewrite run_loop_total by (auto using init_wf, init_tame).
+  destruct (steps_inv h init init_wf init_tame Hno) as [Hwf Ht].
+  destruct (broadcast_spec MShutdown _ Hwf Ht) as [w' [Hrun [Hs Hc]]]. rewrite Hrun.
+  exists w'. split; [reflexivity|exact Hc].
+Qed.
+
+(* (F) isolation: a run and the run from which subscriber (a, c) has been erased *)
+Definition sim (a : sub_id) (c : chan) (w1 w2 : world) : Prop :=
+  subscribers w2 = filter (negkey a) (subscribers w1)
+  /\ (forall b y, In (b, y) (subscribers w1) -> (b = a <-> y = c))
+  /\ (forall x, x <> c -> chans w1 x = chans w2 x).
+
+Lemma count_filter_negkey a c x d : (forall b y, In (b, y) d -> (b = a <-> y = c)) -> x <> c ->
+  count x (filter (negkey a) d) = count x d.
+Proof.
+  intros Hown Hx. unfold count. rewrite filter_comm. f_equal. apply filter_all.
+  intros [b y] Hin. apply filter_In in Hin as [Hin Hy]. cbn [snd] in Hy. apply N.eqb_eq in Hy. subst y.
+  rewrite negkey_pair. apply negb_true_iff, N.eqb_neq. intros ->. apply Hx. now apply (Hown a x Hin).
+Qed.
+
+Lemma spec_sim a c w1 w2 o : wf w1 -> sim a c w1 w2 -> owns_op a c o = true ->
+  let s2 := if mentions a c o then subscribers w2 else spec_subs o w2 in
+  s2 = filter (negkey a) (spec_subs o w1)
+  /\ (forall b y, In (b, y) (spec_subs o w1) -> (b = a <-> y = c))
+  /\ (forall x, x <> c -> spec_chan o w1 x = if mentions a c o then chans w2 x else spec_chan o w2 x).
+Proof.
+  intros Hwf [Hs [Hown Hch]] Ho. cbn zeta.
+  destruct o as [[a' c'|a'|e]|c' k]; cbn [mentions owns_op spec_subs spec_chan] in *.
+  - apply eqb_prop in Ho. destruct (N.eqb_spec a' a) as [->|Ha]; cbn [orb].
+    + symmetry in Ho. apply N.eqb_eq in Ho. subst c'. split; [|split].
+      * rewrite Hs. destruct (good (chans w1 c)); [now rewrite filter_negkey_dset_same|now rewrite filter_idem].
+      * intros b y Hin. destruct (good (chans w1 c)).
+        -- apply in_dset in Hin as [[-> ->]|[_ Hin]]; [tauto|now apply Hown|exact Hwf].
+        -- apply filter_In in Hin as [Hin _]. now apply Hown.
+      * intros x Hx. destruct (N.eqb_spec x c); [congruence|now apply Hch].
+    + symmetry in Ho. apply N.eqb_neq in Ho. destruct (N.eqb_spec c' c); [congruence|].
+      rewrite <- (Hch c') by assumption. split; [|split].
+      * rewrite Hs. destruct (good (chans w1 c')); [now rewrite filter_negkey_dset_other|apply filter_comm].
+      * intros b y Hin. destruct (good (chans w1 c')).
+        -- apply in_dset in Hin as [[-> ->]|[_ Hin]]; [tauto|now apply Hown|exact Hwf].
+        -- apply filter_In in Hin as [Hin _]. now apply Hown.
+      * intros x Hx. destruct (N.eqb x c'); [reflexivity|now apply Hch].
+  - destruct (N.eqb_spec a' a) as [->|Ha].
+    + split; [|split].
+      * now rewrite Hs, filter_idem.
+      * intros b y Hin. apply filter_In in Hin as [Hin _]. now apply Hown.
+      * intros x Hx. destruct (dget a (subscribers w1)) as [c''|] eqn:Eg; [|now apply Hch].
+        apply dget_some_in in Eg. assert (c'' = c) as -> by now apply (Hown a c'' Eg).
+        destruct (N.eqb_spec x c); [congruence|now apply Hch].
+    + split; [|split].
+      * rewrite Hs. apply filter_comm.
+      * intros b y Hin. apply filter_In in Hin as [Hin _]. now apply Hown.
+      * intros x Hx. rewrite Hs, dget_filter_negkey by assumption.
+        destruct (dget a' (subscribers w1)) as [c''|] eqn:Eg; [|now apply Hch].
+        apply dget_some_in in Eg. assert (c'' <> c) by (intros ->; apply Ha; now apply (Hown a' c Eg)).
+        rewrite <- (Hch c'') by assumption. destruct (N.eqb x c''); [reflexivity|now apply Hch].
+  - split; [|split].
+    + rewrite Hs, (filter_comm (negkey a)). apply filter_ext_in. intros [b y] Hin. cbn [snd].
+      apply filter_In in Hin as [Hin Hb]. rewrite negkey_pair in Hb. apply negb_true_iff, N.eqb_neq in Hb.
+      rewrite Hch; [reflexivity|]. intros ->. apply Hb. now apply (Hown b c Hin).
+    + intros b y Hin. apply filter_In in Hin as [Hin _]. now apply Hown.
+    + intros x Hx. rewrite Hs, (count_filter_negkey a c) by assumption. now rewrite Hch.
+  - destruct (N.eqb_spec c' c) as [->|Hc].
+    + split; [exact Hs|split; [exact Hown|]]. intros x Hx. destruct (N.eqb_spec x c); [congruence|now apply Hch].
+    + split; [exact Hs|split; [exact Hown|]]. intros x Hx. rewrite <- (Hch c') by assumption.
+      destruct (N.eqb x c'); [reflexivity|now apply Hch].
+Qed.
+
+Lemma no_other_erase a c h : no_other h = true -> no_other (erase a c h) = true.
+Proof.
+  unfold no_other, erase. rewrite !forallb_forall. intros H o Ho. apply filter_In in Ho as [Ho _]. now apply H.
+Qed.
+
+Lemma steps_sim a c h : forall w1 w2, wf w1 -> tame w1 -> wf w2 -> tame w2 ->
+  no_other h = true -> owns a c h = true -> sim a c w1 w2 ->
+  sim a c (steps cfg w1 h) (steps cfg w2 (erase a c h)).
+Proof.
+  induction h as [|o t IH]; intros w1 w2 Hwf1 Ht1 Hwf2 Ht2 Hno Hown Hsim; [exact Hsim|].
+  cbn [no_other owns forallb] in Hno, Hown.
+  apply andb_true_iff in Hno as [Ho Hno]. apply andb_true_iff in Hown as [Hoo Hown].
+  rewrite steps_cons. unfold erase. cbn [filter]. fold (erase a c t).
+  destruct (step_inv w1 o Hwf1 Ht1 Ho) as [Hwf1' [Ht1' _]].
+  destruct (step_spec w1 o Hwf1 Ht1 Ho) as [w1' [Hrun1 [Hs1 Hc1]]]. rewrite Hrun1 in *. cbn [fst] in *.
+  destruct (spec_sim a c w1 w2 o Hwf1 Hsim Hoo) as [H1 [H2 H3]].
+  destruct (mentions a c o) eqn:Em; cbn [negb].
+  - apply IH; auto. unfold sim. rewrite Hs1. split; [exact H1|split; [exact H2|]].
+    intros x Hx. rewrite Hc1. now apply H3.
+  - rewrite steps_cons.
+    destruct (step_inv w2 o Hwf2 Ht2 Ho) as [Hwf2' [Ht2' _]].
+    destruct (step_spec w2 o Hwf2 Ht2 Ho) as [w2' [Hrun2 [Hs2 Hc2]]]. rewrite Hrun2 in *. cbn [fst] in *.
+    apply IH; auto. unfold sim. rewrite Hs1, Hs2. split; [exact H1|split; [exact H2|]].
+    intros x Hx. rewrite Hc1, Hc2. now apply H3.
+Qed.
+
+Lemma isolation a c h : no_other h = true -> owns a c h = true ->
+  (forall x, x <> c -> chans (steps cfg init h) x = chans (steps cfg init (erase a c h)) x)
+  /\ subscribers (steps cfg init (erase a c h)) = filter (negkey a) (subscribers (steps cfg init h)).
+Proof.
+  intros Hno Hown.
+  destruct (steps_sim a c h init init init_wf init_tame init_wf init_tame Hno Hown) as [H1 [_ H3]].
+  - split; [reflexivity|split; [intros b y []|reflexivity]].
+  - split; assumption.
+Qed.
+
 End Tolerant.
+
+(* ------------------------------------------------------------------ 5. the two catch configurations *)
+Lemma cfg_fixed_tolerant f : f <> OtherErr ->
+  caught_send cfg_fixed f = true /\ caught_bcast cfg_fixed f = true.
+Proof. destruct f; cbn; intros H; try (split; reflexivity). congruence. Qed.
+
+(* the tree before the fix: one subscriber whose connection raises ConnectionResetError (an OSError that
+   is not a BrokenPipeError) stops the dispatcher loop; the healthy subscriber 1 never gets event 7,
+   and the events still in the queue (8) are never dispatched *)
+Definition orig_witness : list op :=
+  [Subscribe 0 0; Subscribe 1 1; Break 0 OSErr; Publish 7; Publish 8].
+
+Lemma orig_stops_dispatcher :
+  no_other orig_witness = true /\
+  (exists w e, run_loop cfg_orig init orig_witness 0 = (w, Raise e, 4) /\ rcvd w 1 = [MSubscribed]) /\
+  (exists w, run_loop cfg_fixed init orig_witness 0 = (w, Ret tt, 5)
+             /\ rcvd w 1 = [MSubscribed; MEv 7; MEv 8] /\ subscribers w = [(1, 1)]).
+Proof.
+  split; [reflexivity|]. split.
+  - eexists. eexists. split; vm_compute; reflexivity.
+  - eexists. split; [vm_compute; reflexivity|]. split; vm_compute; reflexivity.
+Qed.
+
+(* faithful-model fact about the fixed tree: an exception of a type that is neither OSError nor EOFError
+   still leaves _broadcast; subscribers later in dict order miss that event *)
+Definition other_witness : list op :=
+  [Subscribe 0 0; Subscribe 1 1; Break 0 OtherErr; Publish 7].
+
+Lemma other_escapes :
+  outcomes cfg_fixed init other_witness = [Ret tt; Ret tt; Ret tt; Raise (ExChan OtherErr)]
+  /\ rcvd (steps cfg_fixed init other_witness) 1 = [MSubscribed].
+Proof. split; vm_compute; reflexivity. Qed.
+
+(* non-vacuity: a history with three subscribers, a repeated subscription, an unknown and a repeated
+   unsubscription, and a channel that breaks in the middle satisfies every hypothesis used above *)
+Definition ex_h1 : list op := [Subscribe 0 0; Publish 1; Unsubscribe 9].
+Definition ex_h2 : list op :=
+  [Publish 2; Subscribe 2 2; Publish 3; Break 0 OSErr; Publish 4; Subscribe 1 1; Unsubscribe 0; Unsubscribe 0;
+   Break 2 BrokenPipe; Publish 5].
+Definition ex_h3 : list op := [Publish 6; Subscribe 1 1; Publish 7].
+
+Lemma example_hyps :
+  no_other (ex_h1 ++ Subscribe 1 1 :: ex_h2 ++ Unsubscribe 1 :: ex_h3) = true
+  /\ untouched 1 ex_h1 = true /\ quiet 1 1 ex_h2 = true
+  /\ owns 0 0 (ex_h1 ++ Subscribe 1 1 :: ex_h2 ++ Unsubscribe 1 :: ex_h3) = true
+  /\ rcvd (exec (ex_h1 ++ Subscribe 1 1 :: ex_h2 ++ Unsubscribe 1 :: ex_h3)) 1
+     = [MSubscribed; MEv 2; MEv 3; MEv 4; MSubscribed; MEv 5; MUnsubscribed]
+  /\ rcvd (exec (ex_h1 ++ Subscribe 1 1 :: ex_h2 ++ Unsubscribe 1 :: ex_h3)) 0
+     = [MSubscribed; MEv 1; MEv 2; MEv 3].
+Proof. repeat split; vm_compute; reflexivity. Qed.
+
+(* the loop with a fallible queue.get coincides with run_loop as long as get succeeds *)
+Lemma run_loop_q_items cfg q : forall w n, run_loop_q cfg w (map Item q) n = run_loop cfg w q n.
+Proof.
+  induction q as [|o t IH]; intros w n; cbn [map run_loop_q run_loop]; [reflexivity|].
+  destruct (step cfg w o) as [w1 [u|e]]; [apply IH|reflexivity].
+Qed.
+
+(* known finding C18-dead-subscriber-unpickle: one queue item that cannot be received ends the loop;
+   the healthy subscriber 1 is told DISPATCHER_SHUTDOWN and event 7 is never dispatched *)
+Definition queue_witness : list qitem := [Item (Subscribe 1 1); GetRaises; Item (Publish 7)].
+
+Lemma queue_failure_stops_dispatcher :
+  exists w, run_q cfg_fixed init queue_witness = (w, Ret tt, 2)
+            /\ rcvd w 1 = [MSubscribed; MShutdown].
+Proof. eexists. split; vm_compute; reflexivity. Qed.
